@@ -15,6 +15,10 @@ import (
 )
 
 func main() {
+	if len(os.Args) >= 3 && os.Args[1] == "replay" {
+		cfg := &interp.Config{Repo: envOr("VERIF_REPO", "/repo"), Verif: envOr("VERIF_DIR", "/verif")}
+		os.Exit(interp.ReplayFile(cfg, os.Args[2]))
+	}
 	if len(os.Args) < 3 || os.Args[1] != "check" {
 		fmt.Fprintln(os.Stderr, "usage: symgo check <PROPERTY> [-tier quick|thorough] [-only harness] [-workers n] [-repo dir] [-verif dir]")
 		os.Exit(2)
